@@ -30,5 +30,12 @@ for prop in C02 C05 C07 C08 C10 C12 C13 C17 C18 C19 C20; do
     done
   done
 done
+# stub fidelity: the instrumented build (scheduler owns every goroutine) and the plain build
+# (real goroutines) must generate and observe exactly the same histories on a correct tree
+for prop in C02 C07 C11 C12 C17 C19 C20; do
+  awk '{print $1,$2,$3}' "$S/$prop-plain-1-16.txt" > "$S/fa.txt"; awk '{print $1,$2,$3}' "$S/$prop-sched-1-16.txt" > "$S/fb.txt"
+  if ! cmp -s "$S/fa.txt" "$S/fb.txt"; then echo "STUB-FIDELITY-MISMATCH $prop (plain vs instrumented):"; diff "$S/fa.txt" "$S/fb.txt" | head -4; bad=1; fi
+done
+[ $bad = 0 ] && echo "STUB-FIDELITY-OK: plain and instrumented builds produce identical histories and verdicts (7 properties)"
 [ $bad = 0 ] && echo "DETERMINISM-OK: $total runs hashed, identical across GOMAXPROCS 1/4/16 and repeated processes (plain, instrumented, race builds)"
 exit $bad
